@@ -20,7 +20,7 @@ import (
 // be starved across a health-check interval. GracePeriod is 0 here (a virtual
 // Sleep does not advance time); the grace period is Engine A's business.
 //
-// ops: down up tick force forceback adv10 adv30 join-promoted
+// ops: down up tick force forceback cbfail cbok adv10 adv30 join-promoted join-attempt
 type scen struct {
 	name    string
 	pre     []string   // run by thread P before the other threads exist
@@ -36,6 +36,8 @@ func scenarios(thorough bool) []scen {
 		{"failover-timer|up|tick", failover, [][]string{{"up"}, {"tick"}}},
 		{"failover-timer|force", failover, [][]string{{"force"}}},
 		{"failover-timer|up|force", failover, [][]string{{"up"}, {"force"}}},
+		// a promotion attempt whose callback fails, raced with a recovery; afterwards the callback works again and a further failover delay passes
+		{"failover-timer(cb fails)|up;cb ok;+10s", []string{"down", "cbfail", "adv10"}, [][]string{{"up", "join-attempt", "cbok", "adv10"}}},
 		{"failback-timer|down", failback, [][]string{{"down"}}},
 		{"failback-timer|down|tick", failback, [][]string{{"down"}, {"tick"}}},
 		{"failback-timer|tick (partner down)", failbackDown, [][]string{{"tick"}}},
@@ -53,8 +55,9 @@ func scenarios(thorough bool) []scen {
 }
 
 type schedState struct {
-	o        *oracle
-	promoted bool
+	o         *oracle
+	promoted  bool
+	attempted bool // a role-change callback ran, or the controller announced a cancel
 }
 
 func (sc scen) scenario() *sched.Scenario {
@@ -71,6 +74,14 @@ func (sc scen) scenario() *sched.Scenario {
 					st.promoted = true
 					x.Wake(joinKey)
 				}
+				if e.Type == ha.FailoverEventCanceled {
+					st.attempted = true
+					x.Wake(joinKey)
+				}
+			}
+			o.onCbHook = func() {
+				st.attempted = true
+				x.Wake(joinKey)
 			}
 			do := func(who, op string) {
 				switch op {
@@ -95,6 +106,14 @@ func (sc scen) scenario() *sched.Scenario {
 					x.Advance(10 * time.Second)
 				case "adv30":
 					x.Advance(30 * time.Second)
+				case "cbfail":
+					o.cbFail = true
+				case "cbok":
+					o.cbFail = false
+				case "join-attempt":
+					for !st.attempted && !x.Aborted() {
+						x.Block(joinKey, "join")
+					}
 				case "join-promoted":
 					for !st.promoted && !x.Aborted() {
 						x.Block(joinKey, "join")
